@@ -1,16 +1,19 @@
 #!/bin/bash
-# applies every seeded change in turn and runs the quick check of its property
-# under several VERIF_SEED values; prints how often each change is reported.
-# /repo/src must be clean.  usage: sweep_seeds.sh [seed values...]
+# applies every seeded change in turn and runs the quick check of the property that
+# is recorded as catching it (first entry of caught_by in its meta.json) under several
+# VERIF_SEED values; prints how often each change is reported.  /repo/src must be clean.
+# usage: sweep_seeds.sh [seed values...]
 cd /verif
 seeds=${@:-1 2}
 for d in seeded/*/; do
-  n=$(basename $d); p=${n%%-*}
+  n=$(basename $d)
+  p=$(python3 -c "import json,sys; m=json.load(open('$d/meta.json')); print(m['caught_by'][0].split()[0])" 2>/dev/null)
+  [ -z "$p" ] && p=${n:0:3}
   hit=0; tot=0
   for s in $seeds; do
     out=$(VERIF_SEED=$s tools/try_seed.sh $n $p 2>&1 | tail -1)
     tot=$((tot+1))
-    case "$out" in *"exit=1"*) hit=$((hit+1)) ;; esac
+    case "$out" in *"$p exit=1"*) hit=$((hit+1)) ;; esac
   done
-  if [ $hit -eq $tot ]; then echo "caught $hit/$tot  $n"; else echo "WEAK   $hit/$tot  $n"; fi
+  if [ $hit -eq $tot ]; then echo "caught $hit/$tot  $n  [$p]"; else echo "WEAK   $hit/$tot  $n  [$p]"; fi
 done
